@@ -10,8 +10,10 @@ and `ok` = every F value is within 1e-9 (relative, floor 1e-300) of its S value,
 The harness re-derives all of this independently in Python from the closed forms, for all sizes.
 
 Library stand-ins (Float side; the real commons-math3 / jdistlib code is not available): the hypergeometric pmf is computed by
-the ratio recurrence from the mode and normalised; `chisqTail x df := x`, so the slot of the chi-squared p-value carries the
-test statistic itself.
+the ratio recurrence from the mode and normalised; the chi-squared upper tail with 1 degree of freedom is `erfc(sqrt(x/2))` and the
+standard normal cdf is `erfc(-x/sqrt 2)/2`, with `erfc` accurate in the tails (positive series below 2, continued fraction above).
+On the exact side (`X`) `chisqTail x df := x`, `sqrt := id`, `normCdf := id`: the slot of the p-value carries the statistic itself when
+the code hands it to `pchisqtail`.
 
 lines:  hwe r h v oneSided(0|1) | lh n nA k | fet a b c d (two.sided|less|greater) | chi a b c d | ctt a b c d minCellCount
 -/
@@ -67,15 +69,43 @@ def HTab.get (t : HTab) (k : Int) : Float := if k < t.lo || k > t.hi then 0.0 el
 def HTab.sumFrom (t : HTab) (a b : Int) : Float :=
   (rangeIncl (max a t.lo) (min b t.hi)).foldl (fun s k => s + t.get k) 0.0
 
+/-! ### Float stand-ins for jdistlib `ChiSquare.cumulative` (1 d.f.) and `Normal.cumulative` -/
+
+def sqrtPi : Float := 1.7724538509055160272981674833411
+
+/-- `erfc(sqrt h)`, `h ≥ 0`, relative accuracy ≈ 1e-15 also in the far tail (`exp (-h)` is taken of `h` itself) -/
+def erfcSqrt (h : Float) : Float :=
+  let t := h.sqrt
+  if h < 4.0 then
+    -- erf t = 2/sqrt(pi) * exp(-t^2) * sum_{n>=0} 2^n t^(2n+1) / (1*3*...*(2n+1))   (all terms positive)
+    let (sum, _) := (List.range 120).foldl (fun (acc : Float × Float) n =>
+      let term := acc.2
+      (acc.1 + term, term * 2.0 * h / (2.0 * n.toFloat + 3.0))) ((0.0 : Float), t)
+    1.0 - 2.0 / sqrtPi * Float.exp (-h) * sum
+  else
+    -- erfc t = exp(-t^2) / (t sqrt(pi)) * 1 / (1 + (1/2h) / (1 + (2/2h) / (1 + (3/2h) / ...)))
+    let f := (List.range 120).foldl (fun (f : Float) i => 1.0 + ((120 - i).toFloat / (2.0 * h)) / f) (1.0 : Float)
+    Float.exp (-h) / (t * sqrtPi) / f
+
+def erfcF (y : Float) : Float := if y.isNaN then y else if y ≥ 0.0 then erfcSqrt (y * y) else 2.0 - erfcSqrt (y * y)
+
+/-- P(chi-squared with `df` degrees of freedom > x); only `df = 1` is implemented (the only use in the translated code) -/
+def chisqTailF (x df : Float) : Float :=
+  if x.isNaN || !(df == 1.0) then 0.0 / 0.0 else if x ≤ 0.0 then 1.0 else erfcSqrt (x / 2.0)
+
+def normCdfF (x : Float) : Float := 0.5 * erfcF (-x / Float.sqrt 2.0)
+
 def libF : Lib Float where
   hyperLogPmf := fun h k => Float.log ((hyperTable h).get k)
   hyperPmf := fun h k => (hyperTable h).get k
   hyperCdf := fun h k => (hyperTable h).sumFrom (hyperTable h).lo k
   hyperUpper := fun h k => let t := hyperTable h; t.sumFrom k t.hi
-  chisqTail := fun x _ => x
+  chisqTail := chisqTailF
+  normCdf := normCdfF
+  sqrt := Float.sqrt
   dnhyper := fun h lo hi ncp => let t := hyperTable h; dnhyperF (fun k => Float.log (t.get k)) lo hi ncp
 
-def libX : Lib Rat := libQ (fun x _ => x)
+def libX : Lib Rat := libQ (fun x _ => x) id id
 
 /-! ### printing -/
 
@@ -175,7 +205,8 @@ def handle (ln : String) : String :=
     | some [a, b, c, d] =>
       let f := Flt.stats_chiSquaredTest libF a b c d
       let dg := a + b = 0 || c + d = 0 || a + c = 0 || b + d = 0 || b * c = 0
-      line f (if dg && a ≥ 0 && b ≥ 0 && c ≥ 0 && d ≥ 0 then none else some (Exact.stats_chiSquaredTest 0 libX a b c d, chiS a b c d)) []
+      if dg && a ≥ 0 && b ≥ 0 && c ≥ 0 && d ≥ 0 then line f none []
+      else s!"F={showF f} X={showR (Exact.stats_chiSquaredTest 0 libX a b c d)} S={showR (chiS a b c d)} ok=-"
     | _ => "bad-op"
   | ["ctt", a, b, c, d, m] =>
     match ints? [a, b, c, d, m] with
